@@ -80,6 +80,9 @@ pub fn run_children(pr: &PropRun, id: &str, lane: &'static str, n: u64, describe
                         }
                     }
                     (None, _, _) => r.inconclusive.push(format!("child seed {} timed out or could not be waited for", seed)),
+                    (Some(st), _, None) if st.code() == Some(2) => {
+                        r.inconclusive.push(format!("child seed {} reported harness trouble / no verdict (exit 2): {}", seed, stdout.lines().last().unwrap_or("")));
+                    }
                     (Some(st), _, None) => {
                         // crashed (signal / abort) without a verdict line: memory-safety style failure
                         let sig = format!("child-crashed:{}", st);
